@@ -569,3 +569,18 @@ package encoder
 //@   requires len(b) <= cap(b)
 //@   ensures err == nil && len(n) != 0 ==> numAccept(numRun(ptrOf(n), len(n)))
 //@   assigns all
+
+// ---------------------------------------------------------------- marshaler output is copied, never adopted (C12)
+// The bytes a MarshalJSON method returns stay the marshaler's: they are copied into the context's own
+// buffer (or a fresh one) before the terminator is appended, so the caller's slice is never written
+// and the pooled buffer never becomes that slice.
+//@ spec apartC(a, b) := cap(a) == 0 || cap(b) == 0 || ptrOf(a) + cap(a) <= ptrOf(b) || ptrOf(b) + cap(b) <= ptrOf(a)
+//@ func AppendMarshalJSON(ctx, code, b, v) (out, err)
+//@   props C12
+//@   nosafety
+//@   requires ctx != nil && code != nil && ctx.Option != nil
+// assumed: what a marshaler returns is not the context's pooled buffer
+//@   postassume MarshalJSON: apartC(ctx.MarshalBuf, result0)
+//@   callassert compact: apartC(arg1, bb)
+//@   assumecalls compact: the output buffer and the pooled marshal buffer are distinct pooled arrays and user code (MarshalJSON) does not exchange them
+//@   assigns all
